@@ -225,7 +225,7 @@ impl Property for C14 {
         if malformed(case) || TYPES[case.ty].is32 || !TYPES[case.ty].copy {
             return Verdict::Trivial("malformed case");
         }
-        let dims = [case.dims.0 as usize, case.dims.1 as usize];
+        let dims = [case.dims.0 as usize % 7, case.dims.1 as usize % 7];
         st.class(&format!("type:{}", TYPES[case.ty].name));
         dispatch_bessel(case.ty, &dims, V14 { case, st })
     }
@@ -337,7 +337,7 @@ impl Property for C15 {
         if malformed(case) {
             return Verdict::Trivial("malformed case");
         }
-        let dims = [case.dims.0 as usize, case.dims.1 as usize];
+        let dims = [case.dims.0 as usize % 7, case.dims.1 as usize % 7];
         st.class(&format!("type:{}", TYPES[case.ty].name));
         dispatch(case.ty, &dims, V15 { case, st })
     }
